@@ -75,6 +75,7 @@ WriteFails(rq, lens, sent, e) ==
      THEN   SClause("C17", "an invalid request must be refused on every write", e.res = "err")
        \cup SClause("C17", "a refused request must never become ready to advance", ~e.ready)
      ELSE   SClause("C17", "a valid request was refused", e.res # "err")
+       \cup SClause("C02", "writing the head of a valid request failed with an error other than output overflow (no head is ever emitted)", e.res # "err")
        \cup (IF e.res = "err" THEN {} ELSE
              IF done THEN
                   SClause("C02", "a write after the head is complete emitted bytes or failed",
